@@ -278,6 +278,15 @@ func (r *Run) verifyTop() {
 		}
 		r.ghostAt(fr, st, tTrue, "entry", nil, penv.vars)
 	}
+	{
+		pm := map[string]Term{}
+		for k, v := range penv.vars {
+			if v.Kind == VTerm {
+				pm[k] = v.T
+			}
+		}
+		r.topReplay = &replayInfo{fn: fn, params: pm, specPkg: penv.specPkg}
+	}
 	entryHeld := map[string]Term{}
 	_ = entryHeld
 	r.execFrame(fr, st, tTrue)
@@ -411,6 +420,11 @@ func (r *Run) verifyTop() {
 			}
 			o := &Obligation{Name: name, Kind: "post", Func: funcKey(fn), Props: r.clauseProps(fr, c),
 				Pos: r.posString(fn.Pos()), Text: c.Text, mark: r.ctx.Mark(), hyps: []Term{reach}, goal: g, ctx: r.ctx}
+			if r.topReplay != nil {
+				ri := *r.topReplay
+				ri.clause = c.E
+				o.replay = &ri
+			}
 			r.obls = append(r.obls, o)
 		}
 	}
